@@ -87,9 +87,6 @@ func (l *tcp) Close() error {
 		close(l.quit)
 
 		err = l.listener.Close()
-
-		l.listener = nil
-		l.log = nil
 	})
 
 	return err
